@@ -2251,3 +2251,789 @@ Proof.
     [|reflexivity|reflexivity].
   unfold i64_env. rcbn. rewrite exec_list_nil. rcbn. reflexivity.
 Qed.
+
+(* ------------------------------------------------------------------ *)
+(** ** decoder_read_bytes as a callee; what it returns are bytes *)
+
+Lemma memcpy_loop_ok src : bytes_ok src -> forall k dst doff soff i d,
+  bytes_ok dst -> memcpy_loop k dst doff src soff i = COk d -> bytes_ok d.
+Proof.
+  intros Bs. induction k as [|k IH]; intros dst doff soff i d Bd H; cbn [memcpy_loop] in H.
+  - inversion H; subst; auto.
+  - destruct (rd src (soff + i)) as [x| |] eqn:R; cbn [cbind] in H; try discriminate.
+    unfold wr in H. destruct ((0 <=? doff + i) && (doff + i <? len dst)); cbn [cbind] in H; try discriminate.
+    eapply IH; [|exact H]. apply upd_bytes_ok; auto. exact (rd_is_byte src (soff + i) x Bs R).
+Qed.
+
+Lemma read_bytes_loop_ok b bp pib : forall k dst i d,
+  bytes_ok dst -> read_bytes_loop k b bp pib dst i = COk d -> bytes_ok d.
+Proof.
+  induction k as [|k IH]; intros dst i d Bd H; cbn [read_bytes_loop] in H.
+  - inversion H; subst; auto.
+  - destruct (rd b (bp + i)) as [a| |]; cbn [cbind] in H; try discriminate.
+    unfold wr at 1 in H. destruct ((0 <=? i) && (i <? len dst)); cbn [cbind] in H; try discriminate.
+    destruct (rd b (bp + i + 1)) as [c| |]; cbn [cbind] in H; try discriminate.
+    destruct (rd _ i) as [old| |]; cbn [cbind] in H; try discriminate.
+    unfold wr at 1 in H. destruct ((0 <=? i) && (i <? len _)); cbn [cbind] in H; try discriminate.
+    eapply IH; [|exact H]. repeat apply upd_bytes_ok; auto; apply is_byte_u8.
+Qed.
+
+Lemma read_bytes_ok s dst n s' d : bytes_ok (buf s) -> bytes_ok dst ->
+  read_bytes s dst n = COk (s', d) -> bytes_ok d.
+Proof.
+  intros Bb Bd. unfold read_bytes, decoder_free, alloc_gen.
+  destruct (negb (in_s64 _)); cbn [cbind]; try discriminate.
+  destruct (_ <=? size s); cbn [cbind].
+  - destruct (pos s <? 0); [intros H; assert (dst = d) by congruence; subst; auto|].
+    cbn [buf]. destruct (Z.rem (pos s) 8 =? 0).
+    + destruct (memcpy dst 0 (buf s) (pos s ÷ 8) n) as [d0| |] eqn:M; cbn [cbind]; try discriminate.
+      intros H. assert (d0 = d) by congruence. subst d0. unfold memcpy in M.
+      exact (memcpy_loop_ok (buf s) Bb _ _ _ _ _ _ Bd M).
+    + destruct (read_bytes_loop _ _ _ _ dst 0) as [d0| |] eqn:M; cbn [cbind]; try discriminate.
+      intros H. assert (d0 = d) by congruence. subst d0.
+      exact (read_bytes_loop_ok _ _ _ _ _ _ _ Bd M).
+  - change (- EOUTOFDATA <? 0) with true. cbv iota. intros H; assert (dst = d) by congruence; subst; auto.
+Qed.
+
+Ltac rbcall_prologue M HM :=
+  rewrite call_S; unfold call_body;
+  change (lookup "decoder_read_bytes" helpers_ir) with (Some (fn_of "decoder_read_bytes"));
+  cbv iota beta;
+  change (f_params (fn_of "decoder_read_bytes"))
+    with [("self_p", PByRef); ("buf_p", PByRef); ("size", PByVal U64)]%string;
+  change (f_locals (fn_of "decoder_read_bytes"))
+    with [("i", VUndef); ("pos", VUndef); ("byte_pos", VUndef); ("pos_in_byte", VUndef)]%string;
+  change (f_ret (fn_of "decoder_read_bytes")) with (@None ity).
+
+Lemma call_read_bytes L e x y a n b sz ps dst : (body_fuel <= L)%nat ->
+  lookup x e = Some (cursor_val b sz ps) -> lookup y e = Some (bytes_val dst) ->
+  in_s64 sz = true -> in_s64 ps = true -> bytes_ok b ->
+  0 <= n < 1152921504606846976 -> (Z.to_nat n < L)%nat ->
+  eval helpers_ir (S8 L) e a = ROk (e, n) ->
+  call helpers_ir (S (S8 L)) e "decoder_read_bytes" [ARef (PVar x); ARef (PVar y); AVal U64 a] =
+  match read_bytes (mkCur b sz ps) dst n with
+  | COk (s', d') =>
+    match update x (cur_val s') e with
+    | Some e1 =>
+      match lookup y e1 with
+      | Some _ => match update y (bytes_val d') e1 with
+                  | Some e2 => ROk (e2, None) | None => RFail (FStuck "update") end
+      | None => RFail (FStuck ("unbound " +++ y))
+      end
+    | None => RFail (FStuck "update")
+    end
+  | COob => RFail FOob | CUb => RFail FUb end.
+Proof.
+  intros HL Hx Hy Hsz Hps Bb Hn Hk Ha.
+  pose proof (body_read_bytes L b sz ps dst n HL Hsz Hps Bb Hn Hk) as HB.
+  assert (HM : (1 <= S8 L)%nat) by (unfold S8; lia).
+  remember (S8 L) as M eqn:EM.
+  rbcall_prologue M HM.
+  wcbn. rewrite (resolve_PVar _ M e x HM). wcbn.
+  unfold env_get at 1. rewrite Hx. wcbn.
+  rewrite (resolve_PVar _ M e y HM). wcbn.
+  unfold env_get at 1. rewrite Hy. wcbn. rewrite Ha. wcbn.
+  change (conv U64 n) with (u64 n). rewrite (u64_id n) by lia.
+  change [("self_p"%string, cursor_val b sz ps); ("buf_p"%string, bytes_val dst); ("size"%string, VInt n);
+          ("i"%string, VUndef); ("pos"%string, VUndef); ("byte_pos"%string, VUndef);
+          ("pos_in_byte"%string, VUndef)]
+    with (ab_env (cursor_val b sz ps) dst n VUndef VUndef VUndef VUndef).
+  destruct (read_bytes {| buf := b; size := sz; pos := ps |} dst n) as [[s' d']| |].
+  - destruct HB as (vi & vp & vbp & vpib & fl & -> & Hfl). unfold ab_env. wcbn.
+    unfold env_set at 1. rewrite Hx. wcbn.
+    destruct (update x (cur_val s') e) as [e1|]; wcbn; [|reflexivity].
+    unfold env_set. destruct (lookup y e1); wcbn; [|reflexivity].
+    destruct (update y (bytes_val d') e1); wcbn; [|reflexivity].
+    destruct Hfl as [-> | ->]; reflexivity.
+  - rewrite HB. reflexivity.
+  - rewrite HB. reflexivity.
+Qed.
+
+Lemma call_read_bytes_scalar L e x y a n b sz ps w0 : (body_fuel <= L)%nat ->
+  lookup x e = Some (cursor_val b sz ps) -> lookup y e = Some (VInt w0) ->
+  in_s64 sz = true -> in_s64 ps = true -> bytes_ok b ->
+  0 <= n < 1152921504606846976 -> (Z.to_nat n < L)%nat ->
+  eval helpers_ir (S8 L) e a = ROk (e, n) ->
+  call helpers_ir (S (S8 L)) e "decoder_read_bytes" [ARef (PVar x); ARefScalar (PVar y); AVal U64 a] =
+  match read_bytes (mkCur b sz ps) [w0] n with
+  | COk (s', d') =>
+    match update x (cur_val s') e with
+    | Some e1 =>
+      match rd d' 0 with
+      | COk r =>
+        match lookup y e1 with
+        | Some _ => match update y (VInt r) e1 with
+                    | Some e2 => ROk (e2, None) | None => RFail (FStuck "update") end
+        | None => RFail (FStuck ("unbound " +++ y))
+        end
+      | COob => RFail FOob | CUb => RFail FUb
+      end
+    | None => RFail (FStuck "update")
+    end
+  | COob => RFail FOob | CUb => RFail FUb end.
+Proof.
+  intros HL Hx Hy Hsz Hps Bb Hn Hk Ha.
+  pose proof (body_read_bytes L b sz ps [w0] n HL Hsz Hps Bb Hn Hk) as HB.
+  assert (HM : (1 <= S8 L)%nat) by (unfold S8; lia).
+  remember (S8 L) as M eqn:EM.
+  rbcall_prologue M HM.
+  wcbn. rewrite (resolve_PVar _ M e x HM). wcbn.
+  unfold env_get at 1. rewrite Hx. wcbn.
+  rewrite (resolve_PVar _ M e y HM). wcbn.
+  unfold env_get at 1. rewrite Hy. wcbn. rewrite Ha. wcbn.
+  change (conv U64 n) with (u64 n). rewrite (u64_id n) by lia.
+  change [("self_p"%string, cursor_val b sz ps); ("buf_p"%string, VArr [VInt w0]); ("size"%string, VInt n);
+          ("i"%string, VUndef); ("pos"%string, VUndef); ("byte_pos"%string, VUndef);
+          ("pos_in_byte"%string, VUndef)]
+    with (ab_env (cursor_val b sz ps) [w0] n VUndef VUndef VUndef VUndef).
+  destruct (read_bytes {| buf := b; size := sz; pos := ps |} [w0] n) as [[s' d']| |].
+  - destruct HB as (vi & vp & vbp & vpib & fl & -> & Hfl). unfold ab_env. wcbn.
+    unfold env_set at 1. rewrite Hx. wcbn.
+    destruct (update x (cur_val s') e) as [e1|]; wcbn; [|reflexivity].
+    unfold bytes_val at 1. cbv iota beta. rewrite vget_bytes_cbn.
+    destruct (rd d' 0) as [r| |]; wcbn; [|reflexivity|reflexivity].
+    unfold env_set. destruct (lookup y e1); wcbn; [|reflexivity].
+    destruct (update y (VInt r) e1); wcbn; [|reflexivity].
+    destruct Hfl as [-> | ->]; reflexivity.
+  - rewrite HB. reflexivity.
+  - rewrite HB. reflexivity.
+Qed.
+
+(* ------------------------------------------------------------------ *)
+(** ** decoder_read_uintN *)
+
+Ltac rd_prologue f ls_ rt :=
+  unfold run;
+  change (lookup f helpers_ir) with (Some (fn_of f));
+  cbv iota beta;
+  change (f_params (fn_of f)) with [("self_p", PByRef)]%string;
+  rcbn; rewrite call_S; unfold call_body;
+  change (lookup f helpers_ir) with (Some (fn_of f));
+  cbv iota beta;
+  change (f_params (fn_of f)) with [("self_p", PByRef)]%string;
+  change (f_locals (fn_of f)) with ls_;
+  change (f_ret (fn_of f)) with (Some rt).
+
+Theorem ir_decoder_read_uint8_fuel : forall L b sz ps, (body_fuel <= L)%nat ->
+  in_s64 sz = true -> in_s64 ps = true -> bytes_ok b ->
+  run helpers_ir (S5 (S8 L)) "decoder_read_uint8"%string [cursor_val b sz ps] =
+  match read_uint8 (mkCur b sz ps) with
+  | COk (s', r) => ROk (Some r, [cursor_val (buf s') (size s') (pos s')])
+  | COob => RFail FOob | CUb => RFail FUb end.
+Proof.
+  intros L b sz ps HL Hsz Hps Bb. unfold S5.
+  rd_prologue "decoder_read_uint8"%string [("value", VInt 0)]%string U8.
+  change (f_body (fn_of "decoder_read_uint8")) with
+    [SExpr (ECall "decoder_read_bytes" [ARef (PVar "self_p"); ARefScalar (PVar "value"); AVal U64 (EConst 1)]);
+     SReturn (Some (ERead (PVar "value")))].
+  rcbn. rewrite resolve_PVar by lia. rcbn.
+  rewrite exec_list_cons, exec_SExpr, eval_ECall.
+  assert (Hk : (Z.to_nat 1 < L)%nat) by (unfold body_fuel in HL; lia).
+  match goal with |- context [call helpers_ir (S (S8 L)) ?e "decoder_read_bytes"%string _] =>
+    rewrite (call_read_bytes_scalar L e "self_p" "value" (EConst 1) 1 b sz ps 0 HL eq_refl eq_refl Hsz Hps
+               Bb ltac:(lia) Hk (ui_frag_const (S8 L) e 1 ltac:(unfold S8; lia)))
+  end.
+  unfold read_uint8.
+  destruct (read_bytes {| buf := b; size := sz; pos := ps |} [0] 1) as [[s' d]| |] eqn:RB;
+    [|reflexivity|reflexivity].
+  rcbn. cbn [cbind].
+  destruct (rd d 0) as [r| |] eqn:Rd; rcbn; cbn [cbind]; [|reflexivity|reflexivity].
+  rewrite exec_list_cons, exec_SReturn.
+  erewrite (eval_read_var_ge _ _ _ "value") by (try reflexivity; unfold S8; lia). rcbn.
+  assert (Bd : bytes_ok d).
+  { apply (read_bytes_ok {| buf := b; size := sz; pos := ps |} [0] 1 s' d Bb); [|exact RB].
+    repeat constructor; unfold is_byte; lia. }
+  pose proof (rd_is_byte _ _ _ Bd Rd) as Hr. change (conv U8 r) with (u8 r).
+  rewrite (u8_small r Hr). reflexivity.
+Qed.
+
+Lemma memcpy_loop_length src : forall k dst doff soff i d,
+  memcpy_loop k dst doff src soff i = COk d -> length d = length dst.
+Proof.
+  induction k as [|k IH]; intros dst doff soff i d H; cbn [memcpy_loop] in H.
+  - inversion H; subst; auto.
+  - destruct (rd src (soff + i)) as [x| |]; cbn [cbind] in H; try discriminate.
+    unfold wr in H. destruct ((0 <=? doff + i) && (doff + i <? len dst)); cbn [cbind] in H; try discriminate.
+    rewrite (IH _ _ _ _ _ H). apply upd_length.
+Qed.
+
+Lemma read_bytes_loop_length b bp pib : forall k dst i d,
+  read_bytes_loop k b bp pib dst i = COk d -> length d = length dst.
+Proof.
+  induction k as [|k IH]; intros dst i d H; cbn [read_bytes_loop] in H.
+  - inversion H; subst; auto.
+  - destruct (rd b (bp + i)) as [a| |]; cbn [cbind] in H; try discriminate.
+    unfold wr at 1 in H. destruct ((0 <=? i) && (i <? len dst)); cbn [cbind] in H; try discriminate.
+    destruct (rd b (bp + i + 1)) as [c| |]; cbn [cbind] in H; try discriminate.
+    destruct (rd _ i) as [old| |]; cbn [cbind] in H; try discriminate.
+    unfold wr at 1 in H. destruct ((0 <=? i) && (i <? len _)); cbn [cbind] in H; try discriminate.
+    rewrite (IH _ _ _ H). now rewrite !upd_length.
+Qed.
+
+Lemma read_bytes_length s dst n s' d : read_bytes s dst n = COk (s', d) -> length d = length dst.
+Proof.
+  unfold read_bytes, decoder_free, alloc_gen.
+  destruct (negb (in_s64 _)); cbn [cbind]; try discriminate.
+  destruct (_ <=? size s); cbn [cbind].
+  - destruct (pos s <? 0); [intros H; assert (dst = d) by congruence; subst; auto|].
+    cbn [buf]. destruct (Z.rem (pos s) 8 =? 0).
+    + destruct (memcpy dst 0 (buf s) (pos s ÷ 8) n) as [d0| |] eqn:M; cbn [cbind]; try discriminate.
+      intros H. assert (d0 = d) by congruence. subst d0. unfold memcpy in M.
+      exact (memcpy_loop_length _ _ _ _ _ _ _ M).
+    + destruct (read_bytes_loop _ _ _ _ dst 0) as [d0| |] eqn:M; cbn [cbind]; try discriminate.
+      intros H. assert (d0 = d) by congruence. subst d0.
+      exact (read_bytes_loop_length _ _ _ _ _ _ _ M).
+  - change (- EOUTOFDATA <? 0) with true. cbv iota. intros H; assert (dst = d) by congruence; subst; auto.
+Qed.
+
+Lemma mod_lor n x y : 0 <= n -> (Z.lor x y) mod 2 ^ n = Z.lor (x mod 2 ^ n) (y mod 2 ^ n).
+Proof. intros H. rewrite <- !Z.land_ones by lia. apply Z.land_lor_distr_l. Qed.
+
+Lemma lor_bound n x y : 0 <= n -> 0 <= x < 2 ^ n -> 0 <= y < 2 ^ n -> 0 <= Z.lor x y < 2 ^ n.
+Proof.
+  intros Hn Hx Hy.
+  assert (E : Z.lor x y = (Z.lor x y) mod 2 ^ n).
+  { rewrite mod_lor by lia. now rewrite !Z.mod_small by lia. }
+  rewrite E. apply Z.mod_pos_bound. apply Z.pow_pos_nonneg; lia.
+Qed.
+
+Ltac fold_nats :=
+  repeat match goal with
+  | |- context [Pos.to_nat ?p] => is_pconst p; let v := eval vm_compute in (Pos.to_nat p) in change (Pos.to_nat p) with v
+  end.
+
+Definition ub_env (c : val) (d : list Z) : env := [("self_p", c); ("buf", bytes_val d)]%string.
+
+Definition u16_ret : expr :=
+  EBin OOr I32 (EBin OShl I32 (ECast U16 (ERead (PIndex (PVar "buf") (EConst 0)))) (EConst 8))
+               (ECast U16 (ERead (PIndex (PVar "buf") (EConst 1)))).
+
+Lemma u16_small z : 0 <= z < 65536 -> u16 z = z.
+Proof. intros H. unfold u16. apply Z.mod_small. lia. Qed.
+
+Lemma u16_frag_ret M c x0 x1 : (body_fuel <= M)%nat -> is_byte x0 -> is_byte x1 ->
+  eval helpers_ir M (ub_env c [x0; x1]) u16_ret = ROk (ub_env c [x0; x1], Z.lor (Z.shiftl x0 8) x1).
+Proof.
+  intros H H0 H1. fuel_split M H. unfold is_byte in *. step2. step2.
+  change (conv U16 ?z) with (u16 z). rewrite !(u16_small x0) by lia.
+  replace (x0 <? 0) with false by lia. step2.
+  rewrite (shl_byte_in_s32 x0 8) by (unfold is_byte; lia).
+  step2. step2. fold_nats. step2.
+  change (conv U16 ?z) with (u16 z). rewrite !(u16_small x1) by lia. reflexivity.
+Qed.
+
+Theorem ir_decoder_read_uint16_fuel : forall L b sz ps, (body_fuel <= L)%nat ->
+  in_s64 sz = true -> in_s64 ps = true -> bytes_ok b ->
+  run helpers_ir (S5 (S8 L)) "decoder_read_uint16"%string [cursor_val b sz ps] =
+  match read_uint16 (mkCur b sz ps) (zeros 8) with
+  | COk (s', r) => ROk (Some r, [cursor_val (buf s') (size s') (pos s')])
+  | COob => RFail FOob | CUb => RFail FUb end.
+Proof.
+  intros L b sz ps HL Hsz Hps Bb. unfold S5.
+  rd_prologue "decoder_read_uint16"%string [("buf", VArr [VInt 0; VInt 0])]%string U16.
+  change (f_body (fn_of "decoder_read_uint16")) with
+    [SExpr (ECall "decoder_read_bytes" [ARef (PVar "self_p"); ARef (PVar "buf"); AVal U64 (EConst 2)]);
+     SReturn (Some u16_ret)].
+  rcbn. rewrite resolve_PVar by lia. rcbn.
+  rewrite exec_list_cons, exec_SExpr, eval_ECall.
+  assert (Hk : (Z.to_nat 2 < L)%nat) by (unfold body_fuel in HL; lia).
+  match goal with |- context [call helpers_ir (S (S8 L)) ?e "decoder_read_bytes"%string _] =>
+    rewrite (call_read_bytes L e "self_p" "buf" (EConst 2) 2 b sz ps [0; 0] HL eq_refl eq_refl Hsz Hps
+               Bb ltac:(lia) Hk (ui_frag_const (S8 L) e 2 ltac:(unfold S8; lia)))
+  end.
+  unfold read_uint16. change (firstn 2 (zeros 8)) with [0; 0].
+  destruct (read_bytes {| buf := b; size := sz; pos := ps |} [0; 0] 2) as [[s' d]| |] eqn:RB;
+    [|reflexivity|reflexivity].
+  pose proof (read_bytes_length _ _ _ _ _ RB) as Ld.
+  assert (Bd : bytes_ok d).
+  { apply (read_bytes_ok {| buf := b; size := sz; pos := ps |} [0; 0] 2 s' d Bb); [|exact RB].
+    repeat constructor; unfold is_byte; lia. }
+  destruct d as [|x0 [|x1 [|? ?]]]; try discriminate.
+  inversion Bd as [|? ? B0 Bd1]; subst. inversion Bd1 as [|? ? B1 Bd2]; subst.
+  rcbn. cbn [cbind].
+  rewrite exec_list_cons, exec_SReturn.
+  change [("self_p"%string, cur_val s'); ("buf"%string, bytes_val [x0; x1])] with (ub_env (cur_val s') [x0; x1]).
+  rewrite u16_frag_ret by (auto; unfold S8; lia). unfold ub_env. rcbn.
+  change (rd [x0; x1] 0) with (COk x0). change (rd [x0; x1] 1) with (COk x1). cbn [cbind].
+  change (conv U16 ?z) with (u16 z).
+  assert (E : u16 (Z.shiftl x0 8) = Z.shiftl x0 8).
+  { apply u16_small. rewrite Z.shiftl_mul_pow2 by lia. change (2 ^ 8) with 256. unfold is_byte in B0. lia. }
+  rewrite E. reflexivity.
+Qed.
+
+Definition rdb (j : Z) : expr := ERead (PIndex (PVar "buf") (EConst j)).
+Definition shl_b (t : ity) (j k : Z) : expr := EBin OShl t (ECast t (rdb j)) (EConst k).
+
+Definition u32_ret : expr :=
+  EBin OOr U32 (EBin OOr U32 (EBin OOr U32 (shl_b U32 0 24) (shl_b U32 1 16)) (shl_b U32 2 8)) (ECast U32 (rdb 3)).
+
+Definition u64_ret : expr :=
+  EBin OOr U64 (EBin OOr U64 (EBin OOr U64 (EBin OOr U64 (EBin OOr U64 (EBin OOr U64 (EBin OOr U64
+    (shl_b U64 0 56) (shl_b U64 1 48)) (shl_b U64 2 40)) (shl_b U64 3 32)) (shl_b U64 4 24))
+    (shl_b U64 5 16)) (shl_b U64 6 8)) (ECast U64 (rdb 7)).
+
+Lemma u32_small z : 0 <= z < 4294967296 -> u32 z = z.
+Proof. intros H. unfold u32. apply Z.mod_small. lia. Qed.
+
+Lemma u32_frag_ret M c x0 x1 x2 x3 : (body_fuel <= M)%nat ->
+  is_byte x0 -> is_byte x1 -> is_byte x2 -> is_byte x3 ->
+  eval helpers_ir M (ub_env c [x0; x1; x2; x3]) u32_ret =
+  ROk (ub_env c [x0; x1; x2; x3],
+       Z.lor (Z.lor (Z.lor (u32 (Z.shiftl x0 24)) (u32 (Z.shiftl x1 16))) (u32 (Z.shiftl x2 8))) x3).
+Proof.
+  intros H H0 H1 H2 H3. fuel_split M H. unfold is_byte in *.
+  do 6 (step2; fold_nats).
+  change (conv U32 ?z) with (u32 z).
+  repeat match goal with |- context [conv U32 ?z] => change (conv U32 z) with (u32 z) end.
+  rewrite !(u32_small x0), !(u32_small x1), !(u32_small x2), !(u32_small x3) by lia. reflexivity.
+Qed.
+
+Lemma u64_frag_ret M c x0 x1 x2 x3 x4 x5 x6 x7 : (body_fuel <= M)%nat ->
+  is_byte x0 -> is_byte x1 -> is_byte x2 -> is_byte x3 ->
+  is_byte x4 -> is_byte x5 -> is_byte x6 -> is_byte x7 ->
+  eval helpers_ir M (ub_env c [x0; x1; x2; x3; x4; x5; x6; x7]) u64_ret =
+  ROk (ub_env c [x0; x1; x2; x3; x4; x5; x6; x7],
+       Z.lor (Z.lor (Z.lor (Z.lor (Z.lor (Z.lor (Z.lor
+         (u64 (Z.shiftl x0 56)) (u64 (Z.shiftl x1 48))) (u64 (Z.shiftl x2 40)))
+         (u64 (Z.shiftl x3 32))) (u64 (Z.shiftl x4 24))) (u64 (Z.shiftl x5 16)))
+         (u64 (Z.shiftl x6 8))) x7).
+Proof.
+  intros H H0 H1 H2 H3 H4 H5 H6 H7. fuel_split M H. unfold is_byte in *.
+  do 10 (step2; fold_nats).
+  rewrite !(u64_id x0), !(u64_id x1), !(u64_id x2), !(u64_id x3),
+          !(u64_id x4), !(u64_id x5), !(u64_id x6), !(u64_id x7) by lia. reflexivity.
+Qed.
+
+Lemma byte_shl_u32_bound x k : 0 <= u32 (Z.shiftl x k) < 2 ^ 32.
+Proof. unfold u32. change (2 ^ 32) with 4294967296. apply Z.mod_pos_bound. lia. Qed.
+Lemma byte_shl_u64_bound x k : 0 <= u64 (Z.shiftl x k) < 2 ^ 64.
+Proof. unfold u64. change (2 ^ 64) with 18446744073709551616. apply Z.mod_pos_bound. lia. Qed.
+
+Theorem ir_decoder_read_uint32_fuel : forall L b sz ps, (body_fuel <= L)%nat ->
+  in_s64 sz = true -> in_s64 ps = true -> bytes_ok b ->
+  run helpers_ir (S5 (S8 L)) "decoder_read_uint32"%string [cursor_val b sz ps] =
+  match read_uint32 (mkCur b sz ps) (zeros 8) with
+  | COk (s', r) => ROk (Some r, [cursor_val (buf s') (size s') (pos s')])
+  | COob => RFail FOob | CUb => RFail FUb end.
+Proof.
+  intros L b sz ps HL Hsz Hps Bb. unfold S5.
+  rd_prologue "decoder_read_uint32"%string [("buf", VArr [VInt 0; VInt 0; VInt 0; VInt 0])]%string U32.
+  change (f_body (fn_of "decoder_read_uint32")) with
+    [SExpr (ECall "decoder_read_bytes" [ARef (PVar "self_p"); ARef (PVar "buf"); AVal U64 (EConst 4)]);
+     SReturn (Some u32_ret)].
+  rcbn. rewrite resolve_PVar by lia. rcbn.
+  rewrite exec_list_cons, exec_SExpr, eval_ECall.
+  assert (Hk : (Z.to_nat 4 < L)%nat) by (unfold body_fuel in HL; lia).
+  match goal with |- context [call helpers_ir (S (S8 L)) ?e "decoder_read_bytes"%string _] =>
+    rewrite (call_read_bytes L e "self_p" "buf" (EConst 4) 4 b sz ps [0; 0; 0; 0] HL eq_refl eq_refl Hsz Hps
+               Bb ltac:(lia) Hk (ui_frag_const (S8 L) e 4 ltac:(unfold S8; lia)))
+  end.
+  unfold read_uint32. change (firstn 4 (zeros 8)) with [0; 0; 0; 0].
+  destruct (read_bytes {| buf := b; size := sz; pos := ps |} [0; 0; 0; 0] 4) as [[s' d]| |] eqn:RB;
+    [|reflexivity|reflexivity].
+  pose proof (read_bytes_length _ _ _ _ _ RB) as Ld.
+  assert (Bd : bytes_ok d).
+  { apply (read_bytes_ok {| buf := b; size := sz; pos := ps |} [0; 0; 0; 0] 4 s' d Bb); [|exact RB].
+    repeat constructor; unfold is_byte; lia. }
+  destruct d as [|x0 [|x1 [|x2 [|x3 [|? ?]]]]]; try discriminate.
+  inversion Bd as [|? ? B0 Bd1]; subst. inversion Bd1 as [|? ? B1 Bd2]; subst.
+  inversion Bd2 as [|? ? B2 Bd3]; subst. inversion Bd3 as [|? ? B3 Bd4]; subst.
+  rcbn. cbn [cbind].
+  rewrite exec_list_cons, exec_SReturn.
+  change [("self_p"%string, cur_val s'); ("buf"%string, bytes_val [x0; x1; x2; x3])]
+    with (ub_env (cur_val s') [x0; x1; x2; x3]).
+  rewrite u32_frag_ret by (auto; unfold S8; lia). unfold ub_env. rcbn.
+  change (rd [x0; x1; x2; x3] 0) with (COk x0). change (rd [x0; x1; x2; x3] 1) with (COk x1).
+  change (rd [x0; x1; x2; x3] 2) with (COk x2). change (rd [x0; x1; x2; x3] 3) with (COk x3). cbn [cbind].
+  change (conv U32 ?z) with (u32 z). rewrite u32_small; [reflexivity|].
+  change 4294967296 with (2 ^ 32).
+  repeat apply lor_bound; try lia; try apply byte_shl_u32_bound.
+  unfold is_byte in B3. change (2 ^ 32) with 4294967296. lia.
+Qed.
+
+Theorem ir_decoder_read_uint64_fuel : forall L b sz ps, (body_fuel <= L)%nat ->
+  in_s64 sz = true -> in_s64 ps = true -> bytes_ok b ->
+  run helpers_ir (S5 (S8 L)) "decoder_read_uint64"%string [cursor_val b sz ps] =
+  match read_uint64 (mkCur b sz ps) (zeros 8) with
+  | COk (s', r) => ROk (Some r, [cursor_val (buf s') (size s') (pos s')])
+  | COob => RFail FOob | CUb => RFail FUb end.
+Proof.
+  intros L b sz ps HL Hsz Hps Bb. unfold S5.
+  rd_prologue "decoder_read_uint64"%string
+    [("buf", VArr [VInt 0; VInt 0; VInt 0; VInt 0; VInt 0; VInt 0; VInt 0; VInt 0])]%string U64.
+  change (f_body (fn_of "decoder_read_uint64")) with
+    [SExpr (ECall "decoder_read_bytes" [ARef (PVar "self_p"); ARef (PVar "buf"); AVal U64 (EConst 8)]);
+     SReturn (Some u64_ret)].
+  rcbn. rewrite resolve_PVar by lia. rcbn.
+  rewrite exec_list_cons, exec_SExpr, eval_ECall.
+  assert (Hk : (Z.to_nat 8 < L)%nat) by (unfold body_fuel in HL; lia).
+  match goal with |- context [call helpers_ir (S (S8 L)) ?e "decoder_read_bytes"%string _] =>
+    rewrite (call_read_bytes L e "self_p" "buf" (EConst 8) 8 b sz ps [0; 0; 0; 0; 0; 0; 0; 0]
+               HL eq_refl eq_refl Hsz Hps
+               Bb ltac:(lia) Hk (ui_frag_const (S8 L) e 8 ltac:(unfold S8; lia)))
+  end.
+  unfold read_uint64. change (firstn 8 (zeros 8)) with [0; 0; 0; 0; 0; 0; 0; 0].
+  destruct (read_bytes {| buf := b; size := sz; pos := ps |} [0; 0; 0; 0; 0; 0; 0; 0] 8)
+    as [[s' d]| |] eqn:RB; [|reflexivity|reflexivity].
+  pose proof (read_bytes_length _ _ _ _ _ RB) as Ld.
+  assert (Bd : bytes_ok d).
+  { apply (read_bytes_ok {| buf := b; size := sz; pos := ps |} [0; 0; 0; 0; 0; 0; 0; 0] 8 s' d Bb);
+      [|exact RB]. repeat constructor; unfold is_byte; lia. }
+  destruct d as [|x0 [|x1 [|x2 [|x3 [|x4 [|x5 [|x6 [|x7 [|? ?]]]]]]]]]; try discriminate.
+  inversion Bd as [|? ? B0 Bd1]; subst. inversion Bd1 as [|? ? B1 Bd2]; subst.
+  inversion Bd2 as [|? ? B2 Bd3]; subst. inversion Bd3 as [|? ? B3 Bd4]; subst.
+  inversion Bd4 as [|? ? B4 Bd5]; subst. inversion Bd5 as [|? ? B5 Bd6]; subst.
+  inversion Bd6 as [|? ? B6 Bd7]; subst. inversion Bd7 as [|? ? B7 Bd8]; subst.
+  rcbn. cbn [cbind].
+  rewrite exec_list_cons, exec_SReturn.
+  change [("self_p"%string, cur_val s'); ("buf"%string, bytes_val [x0; x1; x2; x3; x4; x5; x6; x7])]
+    with (ub_env (cur_val s') [x0; x1; x2; x3; x4; x5; x6; x7]).
+  rewrite u64_frag_ret by (auto; unfold S8; lia). unfold ub_env. rcbn.
+  change (rd [x0; x1; x2; x3; x4; x5; x6; x7] 0) with (COk x0).
+  change (rd [x0; x1; x2; x3; x4; x5; x6; x7] 1) with (COk x1).
+  change (rd [x0; x1; x2; x3; x4; x5; x6; x7] 2) with (COk x2).
+  change (rd [x0; x1; x2; x3; x4; x5; x6; x7] 3) with (COk x3).
+  change (rd [x0; x1; x2; x3; x4; x5; x6; x7] 4) with (COk x4).
+  change (rd [x0; x1; x2; x3; x4; x5; x6; x7] 5) with (COk x5).
+  change (rd [x0; x1; x2; x3; x4; x5; x6; x7] 6) with (COk x6).
+  change (rd [x0; x1; x2; x3; x4; x5; x6; x7] 7) with (COk x7). cbn [cbind].
+  change (conv U64 ?z) with (u64 z). rewrite u64_id; [reflexivity|].
+  change 18446744073709551616 with (2 ^ 64).
+  repeat apply lor_bound; try lia; try apply byte_shl_u64_bound.
+  unfold is_byte in B7. change (2 ^ 64) with 18446744073709551616. lia.
+Qed.
+
+(* ------------------------------------------------------------------ *)
+(** ** decoder_read_intN *)
+
+Definition iv_env (c : val) (vv : val) : env := [("self_p", c); ("value", vv)]%string.
+
+Lemma iv_frag_sub M c w t ti k : (body_fuel <= M)%nat -> ity_signed t = true ->
+  in_range t (w - k) = true ->
+  exec helpers_ir M (iv_env c (VInt w))
+    (SAssign (PVar "value") ti (EBin OSub t (ERead (PVar "value")) (EConst k))) =
+  ROk (iv_env c (VInt (conv ti (w - k))), FNormal).
+Proof.
+  intros H Hs Hr. fuel_split M H. symex. unfold arith. rewrite Hs, Hr. reflexivity.
+Qed.
+
+Lemma iv_frag_ret M c w : (body_fuel <= M)%nat ->
+  exec helpers_ir M (iv_env c (VInt w)) (SReturn (Some (ERead (PVar "value")))) =
+  ROk (iv_env c (VInt w), FReturn (Some w)).
+Proof. intros H. fuel_split M H. symex. reflexivity. Qed.
+
+Lemma s8_range z : -128 <= s8 z <= 127. Proof. unfold s8. lia. Qed.
+Lemma s16_range z : -32768 <= s16 z <= 32767. Proof. unfold s16. lia. Qed.
+Lemma s32_range z : -2147483648 <= s32 z <= 2147483647. Proof. unfold s32. lia. Qed.
+Lemma s8_s8 z : s8 (s8 z) = s8 z. Proof. unfold s8. lia. Qed.
+Lemma s16_s16 z : s16 (s16 z) = s16 z. Proof. unfold s16. lia. Qed.
+Lemma s32_s32 z : s32 (s32 z) = s32 z. Proof. unfold s32. lia. Qed.
+
+Ltac ri_call f L b sz ps HL Hsz Hps Bb thm :=
+  rewrite exec_list_cons, exec_SAssign;
+  try rewrite eval_ECast; rewrite eval_ECall;
+  match goal with |- context [call helpers_ir (S ?n') ?e f _] =>
+    rewrite (call_of_run_s f (fn_of f) n' e "self_p" (cursor_val b sz ps) eq_refl eq_refl
+               ltac:(unfold S5, S8; lia) eq_refl)
+  end;
+  change (S (S (S (S (S (S8 L)))))) with (S5 (S8 L));
+  rewrite (thm L b sz ps HL Hsz Hps Bb).
+
+Theorem ir_decoder_read_int8_fuel : forall L b sz ps, (body_fuel <= L)%nat ->
+  in_s64 sz = true -> in_s64 ps = true -> bytes_ok b ->
+  run helpers_ir (S5 (S5 (S8 L))) "decoder_read_int8"%string [cursor_val b sz ps] =
+  match read_int8 (mkCur b sz ps) with
+  | COk (s', r) => ROk (Some r, [cursor_val (buf s') (size s') (pos s')])
+  | COob => RFail FOob | CUb => RFail FUb end.
+Proof.
+  intros L b sz ps HL Hsz Hps Bb. unfold S5.
+  rd_prologue "decoder_read_int8"%string [("value", VUndef)]%string I8.
+  change (f_body (fn_of "decoder_read_int8")) with
+    [SAssign (PVar "value") I8 (ECast I8 (ECall "decoder_read_uint8" [ARef (PVar "self_p")]));
+     SAssign (PVar "value") I8 (EBin OSub I32 (ERead (PVar "value")) (EConst 128));
+     SReturn (Some (ERead (PVar "value")))].
+  rcbn. rewrite resolve_PVar by lia. rcbn.
+  ri_call "decoder_read_uint8"%string L b sz ps HL Hsz Hps Bb ir_decoder_read_uint8_fuel.
+  unfold read_int8.
+  destruct (read_uint8 {| buf := b; size := sz; pos := ps |}) as [[s' u]| |]; [|reflexivity|reflexivity].
+  rcbn. cbn [cbind]. rewrite resolve_PVar by (unfold S8; lia). rcbn.
+  change (conv I8 ?z) with (s8 z). rewrite s8_s8.
+  change [("self_p"%string, ?c); ("value"%string, ?vv)] with (iv_env c vv).
+  assert (HM : (body_fuel <= S8 L)%nat) by (unfold S8; lia).
+  rewrite exec_list_cons, (iv_frag_sub _ _ _ I32 I8 128) by
+    (try reflexivity; try (unfold S5, S8; lia);
+     pose proof (s8_range u); unfold in_range; cbn [ity_signed ity_bits ity_min ity_max];
+     change (2 ^ (32 - 1)) with 2147483648; lia).
+  rcbn. rewrite exec_list_cons, iv_frag_ret by (unfold S5, S8; lia). unfold iv_env. rcbn.
+  change (conv I8 ?z) with (s8 z). rewrite s8_s8. reflexivity.
+Qed.
+
+Theorem ir_decoder_read_int16_fuel : forall L b sz ps, (body_fuel <= L)%nat ->
+  in_s64 sz = true -> in_s64 ps = true -> bytes_ok b ->
+  run helpers_ir (S5 (S5 (S8 L))) "decoder_read_int16"%string [cursor_val b sz ps] =
+  match read_int16 (mkCur b sz ps) (zeros 8) with
+  | COk (s', r) => ROk (Some r, [cursor_val (buf s') (size s') (pos s')])
+  | COob => RFail FOob | CUb => RFail FUb end.
+Proof.
+  intros L b sz ps HL Hsz Hps Bb. unfold S5.
+  rd_prologue "decoder_read_int16"%string [("value", VUndef)]%string I16.
+  change (f_body (fn_of "decoder_read_int16")) with
+    [SAssign (PVar "value") I16 (ECast I16 (ECall "decoder_read_uint16" [ARef (PVar "self_p")]));
+     SAssign (PVar "value") I16 (EBin OSub I32 (ERead (PVar "value")) (EConst 32768));
+     SReturn (Some (ERead (PVar "value")))].
+  rcbn. rewrite resolve_PVar by lia. rcbn.
+  ri_call "decoder_read_uint16"%string L b sz ps HL Hsz Hps Bb ir_decoder_read_uint16_fuel.
+  unfold read_int16.
+  destruct (read_uint16 {| buf := b; size := sz; pos := ps |} (zeros 8)) as [[s' u]| |];
+    [|reflexivity|reflexivity].
+  rcbn. cbn [cbind]. rewrite resolve_PVar by (unfold S8; lia). rcbn.
+  change (conv I16 ?z) with (s16 z). rewrite s16_s16.
+  change [("self_p"%string, ?c); ("value"%string, ?vv)] with (iv_env c vv).
+  rewrite exec_list_cons, (iv_frag_sub _ _ _ I32 I16 32768) by
+    (try reflexivity; try (unfold S5, S8; lia);
+     pose proof (s16_range u); unfold in_range; cbn [ity_signed ity_bits ity_min ity_max];
+     change (2 ^ (32 - 1)) with 2147483648; lia).
+  rcbn. rewrite exec_list_cons, iv_frag_ret by (unfold S5, S8; lia). unfold iv_env. rcbn.
+  change (conv I16 ?z) with (s16 z). rewrite s16_s16. reflexivity.
+Qed.
+
+Theorem ir_decoder_read_int32_fuel : forall L b sz ps, (body_fuel <= L)%nat ->
+  in_s64 sz = true -> in_s64 ps = true -> bytes_ok b ->
+  run helpers_ir (S5 (S5 (S8 L))) "decoder_read_int32"%string [cursor_val b sz ps] =
+  match read_int32 (mkCur b sz ps) (zeros 8) with
+  | COk (s', r) => ROk (Some r, [cursor_val (buf s') (size s') (pos s')])
+  | COob => RFail FOob | CUb => RFail FUb end.
+Proof.
+  intros L b sz ps HL Hsz Hps Bb. unfold S5.
+  rd_prologue "decoder_read_int32"%string [("value", VUndef)]%string I32.
+  change (f_body (fn_of "decoder_read_int32")) with
+    [SAssign (PVar "value") I32 (ECast I32 (ECall "decoder_read_uint32" [ARef (PVar "self_p")]));
+     SAssign (PVar "value") I32 (EBin OSub I64 (ERead (PVar "value")) (EConst 2147483648));
+     SReturn (Some (ERead (PVar "value")))].
+  rcbn. rewrite resolve_PVar by lia. rcbn.
+  ri_call "decoder_read_uint32"%string L b sz ps HL Hsz Hps Bb ir_decoder_read_uint32_fuel.
+  unfold read_int32.
+  destruct (read_uint32 {| buf := b; size := sz; pos := ps |} (zeros 8)) as [[s' u]| |];
+    [|reflexivity|reflexivity].
+  rcbn. cbn [cbind]. rewrite resolve_PVar by (unfold S8; lia). rcbn.
+  change (conv I32 ?z) with (s32 z). rewrite s32_s32.
+  change [("self_p"%string, ?c); ("value"%string, ?vv)] with (iv_env c vv).
+  rewrite exec_list_cons, (iv_frag_sub _ _ _ I64 I32 2147483648) by
+    (try reflexivity; try (unfold S5, S8; lia);
+     pose proof (s32_range u); change (in_range I64 ?z) with (in_s64 z); unfold in_s64; lia).
+  rcbn. rewrite exec_list_cons, iv_frag_ret by (unfold S5, S8; lia). unfold iv_env. rcbn.
+  change (conv I32 ?z) with (s32 z). rewrite s32_s32. reflexivity.
+Qed.
+
+Lemma iv_frag_sub64 M c w : (body_fuel <= M)%nat ->
+  exec helpers_ir M (iv_env c (VInt w))
+    (SAssign (PVar "value") U64 (EBin OSub U64 (ERead (PVar "value")) (EConst 9223372036854775808))) =
+  ROk (iv_env c (VInt (u64 (w - 9223372036854775808))), FNormal).
+Proof. intros H. fuel_split M H. step2. rewrite u64_u64. reflexivity. Qed.
+
+Lemma iv_frag_ret64 M c w : (body_fuel <= M)%nat ->
+  exec helpers_ir M (iv_env c (VInt w)) (SReturn (Some (ECast I64 (ERead (PVar "value"))))) =
+  ROk (iv_env c (VInt w), FReturn (Some (s64 w))).
+Proof. intros H. fuel_split M H. step2. reflexivity. Qed.
+
+Lemma s64_s64 z : s64 (s64 z) = s64 z. Proof. unfold s64. lia. Qed.
+
+Theorem ir_decoder_read_int64_fuel : forall L b sz ps, (body_fuel <= L)%nat ->
+  in_s64 sz = true -> in_s64 ps = true -> bytes_ok b ->
+  run helpers_ir (S (S (S (S (S5 (S8 L)))))) "decoder_read_int64"%string [cursor_val b sz ps] =
+  match read_int64 (mkCur b sz ps) (zeros 8) with
+  | COk (s', r) => ROk (Some r, [cursor_val (buf s') (size s') (pos s')])
+  | COob => RFail FOob | CUb => RFail FUb end.
+Proof.
+  intros L b sz ps HL Hsz Hps Bb. unfold S5.
+  rd_prologue "decoder_read_int64"%string [("value", VUndef)]%string I64.
+  change (f_body (fn_of "decoder_read_int64")) with
+    [SAssign (PVar "value") U64 (ECall "decoder_read_uint64" [ARef (PVar "self_p")]);
+     SAssign (PVar "value") U64 (EBin OSub U64 (ERead (PVar "value")) (EConst 9223372036854775808));
+     SReturn (Some (ECast I64 (ERead (PVar "value"))))].
+  rcbn. rewrite resolve_PVar by lia. rcbn.
+  ri_call "decoder_read_uint64"%string L b sz ps HL Hsz Hps Bb ir_decoder_read_uint64_fuel.
+  unfold read_int64.
+  destruct (read_uint64 {| buf := b; size := sz; pos := ps |} (zeros 8)) as [[s' u]| |];
+    [|reflexivity|reflexivity].
+  rcbn. cbn [cbind]. rewrite resolve_PVar by (unfold S8; lia). rcbn.
+  change [("self_p"%string, ?c); ("value"%string, ?vv)] with (iv_env c vv).
+  rewrite exec_list_cons, iv_frag_sub64 by (unfold S5, S8; lia).
+  rcbn. rewrite exec_list_cons, iv_frag_ret64 by (unfold S5, S8; lia). unfold iv_env. rcbn.
+  change (conv I64 ?z) with (s64 z). change (conv U64 ?z) with (u64 z).
+  rewrite s64_s64. f_equal. f_equal. f_equal. unfold s64, u64. lia.
+Qed.
+
+(* ================================================================== *)
+(** * The fixed-size helpers for every fuel from 80 on *)
+
+Ltac any_fuel e thm :=
+  match goal with |- context [run helpers_ir ?fuel _ _] =>
+    replace fuel with e by (unfold loop_fuel, S13, S5, S8, body_fuel; lia);
+    apply thm; auto; unfold body_fuel; lia
+  end.
+
+Theorem ir_encoder_append_bool : forall fuel b sz ps z, (80 <= fuel)%nat ->
+  in_s64 sz = true -> in_s64 ps = true ->
+  run helpers_ir fuel "encoder_append_bool"%string [cursor_val b sz ps; VInt z] =
+  match append_bool (mkCur b sz ps) (negb (z =? 0)) with
+  | COk s' => ROk (None, [cursor_val (buf s') (size s') (pos s'); VInt z])
+  | COob => RFail FOob | CUb => RFail FUb end.
+Proof. intros fuel b sz ps z Hf Hsz Hps. any_fuel (S (loop_fuel (fuel - 45))) ir_encoder_append_bool_fuel. Qed.
+
+Theorem ir_decoder_read_bool : forall fuel b sz ps, (80 <= fuel)%nat ->
+  in_s64 sz = true -> in_s64 ps = true ->
+  run helpers_ir fuel "decoder_read_bool"%string [cursor_val b sz ps] =
+  match read_bool (mkCur b sz ps) with
+  | COk (s', v) => ROk (Some (if v then 1 else 0), [cursor_val (buf s') (size s') (pos s')])
+  | COob => RFail FOob | CUb => RFail FUb end.
+Proof.
+  intros fuel b sz ps Hf Hsz Hps.
+  any_fuel (S (S (S (S (S (S (body_fuel + (fuel - 46)))))))) ir_decoder_read_bool_fuel.
+Qed.
+
+Theorem ir_encoder_append_uint8 : forall fuel b sz ps v, (80 <= fuel)%nat ->
+  in_s64 sz = true -> in_s64 ps = true ->
+  run helpers_ir fuel "encoder_append_uint8"%string [cursor_val b sz ps; VInt v] =
+  match append_uint8 (mkCur b sz ps) v with
+  | COk s' => ROk (None, [cursor_val (buf s') (size s') (pos s'); VInt v])
+  | COob => RFail FOob | CUb => RFail FUb end.
+Proof.
+  intros fuel b sz ps v Hf Hsz Hps.
+  any_fuel (S (S (S (S (S (S (S8 (fuel - 14)))))))) ir_encoder_append_uint8_fuel.
+Qed.
+
+Theorem ir_encoder_append_uint16 : forall fuel b sz ps v, (80 <= fuel)%nat ->
+  in_s64 sz = true -> in_s64 ps = true ->
+  run helpers_ir fuel "encoder_append_uint16"%string [cursor_val b sz ps; VInt v] =
+  match append_uint16 (mkCur b sz ps) v with
+  | COk s' => ROk (None, [cursor_val (buf s') (size s') (pos s'); VInt v])
+  | COob => RFail FOob | CUb => RFail FUb end.
+Proof.
+  intros fuel b sz ps v Hf Hsz Hps.
+  any_fuel (S (S (S (S (S (S (S (S8 (fuel - 15))))))))) ir_encoder_append_uint16_fuel.
+Qed.
+
+Theorem ir_encoder_append_uint32 : forall fuel b sz ps v, (80 <= fuel)%nat ->
+  in_s64 sz = true -> in_s64 ps = true ->
+  run helpers_ir fuel "encoder_append_uint32"%string [cursor_val b sz ps; VInt v] =
+  match append_uint32 (mkCur b sz ps) v with
+  | COk s' => ROk (None, [cursor_val (buf s') (size s') (pos s'); VInt v])
+  | COob => RFail FOob | CUb => RFail FUb end.
+Proof.
+  intros fuel b sz ps v Hf Hsz Hps.
+  any_fuel (S (S (S (S (S (S (S (S (S (S8 (fuel - 17))))))))))) ir_encoder_append_uint32_fuel.
+Qed.
+
+Theorem ir_encoder_append_uint64 : forall fuel b sz ps v, (80 <= fuel)%nat ->
+  in_s64 sz = true -> in_s64 ps = true ->
+  run helpers_ir fuel "encoder_append_uint64"%string [cursor_val b sz ps; VInt v] =
+  match append_uint64 (mkCur b sz ps) v with
+  | COk s' => ROk (None, [cursor_val (buf s') (size s') (pos s'); VInt v])
+  | COob => RFail FOob | CUb => RFail FUb end.
+Proof.
+  intros fuel b sz ps v Hf Hsz Hps.
+  any_fuel (S (S (S (S (S (S (S (S (S (S (S (S (S (S8 (fuel - 21))))))))))))))) ir_encoder_append_uint64_fuel.
+Qed.
+
+Theorem ir_encoder_append_int8 : forall fuel b sz ps v, (80 <= fuel)%nat ->
+  in_s64 sz = true -> in_s64 ps = true ->
+  run helpers_ir fuel "encoder_append_int8"%string [cursor_val b sz ps; VInt v] =
+  match append_int8 (mkCur b sz ps) v with
+  | COk s' => ROk (None, [cursor_val (buf s') (size s') (pos s'); VInt v])
+  | COob => RFail FOob | CUb => RFail FUb end.
+Proof. intros fuel b sz ps v Hf Hsz Hps. any_fuel (S5 (S5 (S8 (fuel - 18)))) ir_encoder_append_int8_fuel. Qed.
+
+Theorem ir_encoder_append_int16 : forall fuel b sz ps v, (80 <= fuel)%nat ->
+  in_s64 sz = true -> in_s64 ps = true ->
+  run helpers_ir fuel "encoder_append_int16"%string [cursor_val b sz ps; VInt v] =
+  match append_int16 (mkCur b sz ps) v with
+  | COk s' => ROk (None, [cursor_val (buf s') (size s') (pos s'); VInt v])
+  | COob => RFail FOob | CUb => RFail FUb end.
+Proof. intros fuel b sz ps v Hf Hsz Hps. any_fuel (S (S5 (S5 (S8 (fuel - 19))))) ir_encoder_append_int16_fuel. Qed.
+
+Theorem ir_encoder_append_int32 : forall fuel b sz ps v, (80 <= fuel)%nat ->
+  in_s64 sz = true -> in_s64 ps = true ->
+  run helpers_ir fuel "encoder_append_int32"%string [cursor_val b sz ps; VInt v] =
+  match append_int32 (mkCur b sz ps) v with
+  | COk s' => ROk (None, [cursor_val (buf s') (size s') (pos s'); VInt v])
+  | COob => RFail FOob | CUb => RFail FUb end.
+Proof.
+  intros fuel b sz ps v Hf Hsz Hps.
+  any_fuel (S (S (S (S5 (S5 (S8 (fuel - 21))))))) ir_encoder_append_int32_fuel.
+Qed.
+
+Theorem ir_encoder_append_int64 : forall fuel b sz ps v, (80 <= fuel)%nat ->
+  in_s64 sz = true -> in_s64 ps = true ->
+  run helpers_ir fuel "encoder_append_int64"%string [cursor_val b sz ps; VInt v] =
+  match append_int64 (mkCur b sz ps) v with
+  | COk s' => ROk (None, [cursor_val (buf s') (size s') (pos s'); VInt v])
+  | COob => RFail FOob | CUb => RFail FUb end.
+Proof. intros fuel b sz ps v Hf Hsz Hps. any_fuel (S (S5 (S13 (S8 (fuel - 27))))) ir_encoder_append_int64_fuel. Qed.
+
+Theorem ir_decoder_read_uint8 : forall fuel b sz ps, (80 <= fuel)%nat ->
+  in_s64 sz = true -> in_s64 ps = true -> bytes_ok b ->
+  run helpers_ir fuel "decoder_read_uint8"%string [cursor_val b sz ps] =
+  match read_uint8 (mkCur b sz ps) with
+  | COk (s', r) => ROk (Some r, [cursor_val (buf s') (size s') (pos s')])
+  | COob => RFail FOob | CUb => RFail FUb end.
+Proof. intros fuel b sz ps Hf Hsz Hps Bb. any_fuel (S5 (S8 (fuel - 13))) ir_decoder_read_uint8_fuel. Qed.
+
+Theorem ir_decoder_read_uint16 : forall fuel b sz ps, (80 <= fuel)%nat ->
+  in_s64 sz = true -> in_s64 ps = true -> bytes_ok b ->
+  run helpers_ir fuel "decoder_read_uint16"%string [cursor_val b sz ps] =
+  match read_uint16 (mkCur b sz ps) (zeros 8) with
+  | COk (s', r) => ROk (Some r, [cursor_val (buf s') (size s') (pos s')])
+  | COob => RFail FOob | CUb => RFail FUb end.
+Proof. intros fuel b sz ps Hf Hsz Hps Bb. any_fuel (S5 (S8 (fuel - 13))) ir_decoder_read_uint16_fuel. Qed.
+
+Theorem ir_decoder_read_uint32 : forall fuel b sz ps, (80 <= fuel)%nat ->
+  in_s64 sz = true -> in_s64 ps = true -> bytes_ok b ->
+  run helpers_ir fuel "decoder_read_uint32"%string [cursor_val b sz ps] =
+  match read_uint32 (mkCur b sz ps) (zeros 8) with
+  | COk (s', r) => ROk (Some r, [cursor_val (buf s') (size s') (pos s')])
+  | COob => RFail FOob | CUb => RFail FUb end.
+Proof. intros fuel b sz ps Hf Hsz Hps Bb. any_fuel (S5 (S8 (fuel - 13))) ir_decoder_read_uint32_fuel. Qed.
+
+Theorem ir_decoder_read_uint64 : forall fuel b sz ps, (80 <= fuel)%nat ->
+  in_s64 sz = true -> in_s64 ps = true -> bytes_ok b ->
+  run helpers_ir fuel "decoder_read_uint64"%string [cursor_val b sz ps] =
+  match read_uint64 (mkCur b sz ps) (zeros 8) with
+  | COk (s', r) => ROk (Some r, [cursor_val (buf s') (size s') (pos s')])
+  | COob => RFail FOob | CUb => RFail FUb end.
+Proof. intros fuel b sz ps Hf Hsz Hps Bb. any_fuel (S5 (S8 (fuel - 13))) ir_decoder_read_uint64_fuel. Qed.
+
+Theorem ir_decoder_read_int8 : forall fuel b sz ps, (80 <= fuel)%nat ->
+  in_s64 sz = true -> in_s64 ps = true -> bytes_ok b ->
+  run helpers_ir fuel "decoder_read_int8"%string [cursor_val b sz ps] =
+  match read_int8 (mkCur b sz ps) with
+  | COk (s', r) => ROk (Some r, [cursor_val (buf s') (size s') (pos s')])
+  | COob => RFail FOob | CUb => RFail FUb end.
+Proof. intros fuel b sz ps Hf Hsz Hps Bb. any_fuel (S5 (S5 (S8 (fuel - 18)))) ir_decoder_read_int8_fuel. Qed.
+
+Theorem ir_decoder_read_int16 : forall fuel b sz ps, (80 <= fuel)%nat ->
+  in_s64 sz = true -> in_s64 ps = true -> bytes_ok b ->
+  run helpers_ir fuel "decoder_read_int16"%string [cursor_val b sz ps] =
+  match read_int16 (mkCur b sz ps) (zeros 8) with
+  | COk (s', r) => ROk (Some r, [cursor_val (buf s') (size s') (pos s')])
+  | COob => RFail FOob | CUb => RFail FUb end.
+Proof. intros fuel b sz ps Hf Hsz Hps Bb. any_fuel (S5 (S5 (S8 (fuel - 18)))) ir_decoder_read_int16_fuel. Qed.
+
+Theorem ir_decoder_read_int32 : forall fuel b sz ps, (80 <= fuel)%nat ->
+  in_s64 sz = true -> in_s64 ps = true -> bytes_ok b ->
+  run helpers_ir fuel "decoder_read_int32"%string [cursor_val b sz ps] =
+  match read_int32 (mkCur b sz ps) (zeros 8) with
+  | COk (s', r) => ROk (Some r, [cursor_val (buf s') (size s') (pos s')])
+  | COob => RFail FOob | CUb => RFail FUb end.
+Proof. intros fuel b sz ps Hf Hsz Hps Bb. any_fuel (S5 (S5 (S8 (fuel - 18)))) ir_decoder_read_int32_fuel. Qed.
+
+Theorem ir_decoder_read_int64 : forall fuel b sz ps, (80 <= fuel)%nat ->
+  in_s64 sz = true -> in_s64 ps = true -> bytes_ok b ->
+  run helpers_ir fuel "decoder_read_int64"%string [cursor_val b sz ps] =
+  match read_int64 (mkCur b sz ps) (zeros 8) with
+  | COk (s', r) => ROk (Some r, [cursor_val (buf s') (size s') (pos s')])
+  | COob => RFail FOob | CUb => RFail FUb end.
+Proof.
+  intros fuel b sz ps Hf Hsz Hps Bb.
+  any_fuel (S (S (S (S (S5 (S8 (fuel - 17))))))) ir_decoder_read_int64_fuel.
+Qed.
